@@ -270,10 +270,12 @@ func binaryRunOnce(sp Spec, bin string) (o *outcome, portClash bool) {
 		case <-exited:
 			late = fmt.Sprintf("only after %.0f ms", exitAt.Sub(t0).Seconds()*1000)
 		case <-time.After(6 * time.Second):
+			cmd.Process.Kill()
+			<-exited // stderr may be read only after Wait returned
 		}
 		o.fail("process-did-not-exit-in-bound", true, "%s: process did not exit within %v; exited %s; stderr: %s", sp.Signal, bound, late, tail(stderr.String()))
 	}
-	if !hasExited() {
+	if len(o.findings) > 0 {
 		return
 	}
 	o.returned = true
